@@ -181,11 +181,40 @@ func renderDropped(n fmt.Stringer) string {
 
 type Recorder struct {
 	mu        sync.Mutex
+	held      []heldVal // slice/map values as delivered, with their rendering at delivery time
 	trace     []string
 	drops     []string
 	unhandled []string
 	inside    int32 // callbacks currently running
 	maxInside int32
+}
+
+// a delivered value that can alias operator state (slices, maps): kept to re-render at the end
+type heldVal struct {
+	v    any
+	snap string
+	idx  int
+}
+
+func (r *Recorder) hold(v any) {
+	k := reflect.ValueOf(v).Kind()
+	if k == reflect.Slice || k == reflect.Map {
+		r.mu.Lock()
+		r.held = append(r.held, heldVal{v, renderVal(v), len(r.trace)})
+		r.mu.Unlock()
+	}
+}
+
+// aliasCheck: "ok", or the index of the first delivered value that was modified after delivery
+func (r *Recorder) aliasCheck() string {
+	r.mu.Lock()
+	defer r.mu.Unlock()
+	for _, h := range r.held {
+		if renderVal(h.v) != h.snap {
+			return strconv.Itoa(h.idx)
+		}
+	}
+	return "ok"
 }
 
 func (r *Recorder) add(s string) {
@@ -210,7 +239,7 @@ func joinOrDash(l []string) string {
 // observer[T] returns the final observer that records into r.
 func observer[T any](r *Recorder) ro.Observer[T] {
 	return ro.NewObserverWithContext(
-		func(ctx context.Context, v T) { r.add("N" + renderVal(v) + "/" + renderCtx(ctx)) },
+		func(ctx context.Context, v T) { r.hold(v); r.add("N" + renderVal(v) + "/" + renderCtx(ctx)) },
 		func(ctx context.Context, err error) { r.add("E" + renderErr(err) + "/" + renderCtx(ctx)) },
 		func(ctx context.Context) { r.add("C/" + renderCtx(ctx)) },
 	)
